@@ -6,7 +6,7 @@ import random
 import re
 
 BOUND = {
-    "quick": "all calendar/event fixture files that parse (about 85) plus 4 synthetic texts x 7 rewrites (LF, BOM, str, re-fold with "
+    "quick": "all calendar/event fixture files that parse (about 85) plus 5 synthetic texts x 7 rewrites (LF, BOM, str, re-fold with "
              "space, re-fold with tab, trailing blank lines, name-case variants: lower / upper / swapped) + 3 random compositions each, "
              "both providers; compared: tree, re-serialisation, utcoffset of parsed date-times",
     "thorough": "same with 12 random compositions each and both providers",
@@ -18,6 +18,10 @@ SYNTH = [
     "BEGIN:VALARM\r\nTRIGGER;RELATED=END:-PT15M\r\nACTION:DISPLAY\r\nEND:VALARM\r\nEND:VEVENT\r\n"
     "BEGIN:VFREEBUSY\r\nUID:2\r\nFREEBUSY;TZID=Europe/Berlin:20240101T100000/PT1H,20240101T120000/20240101T130000\r\nEND:VFREEBUSY\r\n"
     "BEGIN:VAVAILABILITY\r\nUID:3\r\nBEGIN:AVAILABLE\r\nDTSTART:20240101T100000Z\r\nEND:AVAILABLE\r\nEND:VAVAILABILITY\r\nEND:VCALENDAR\r\n",
+    # characters that a decoder or a line splitter may treat specially: U+FEFF inside a value and a quoted parameter, NEL, LINE /
+    # PARAGRAPH SEPARATOR, NBSP, a non-BMP character
+    "BEGIN:VCALENDAR\r\nVERSION:2.0\r\nBEGIN:VEVENT\r\nUID:4\r\nSUMMARY:Team\ufeffSync \u0085 next \u2028 line \u2029 par \u00a0 nbsp \U0001F600 end\r\n"
+    "ATTENDEE;CN=\"Ann\ufeffLee \u2028\";X-P=a\u0085b:mailto:a@example.com\r\nDESCRIPTION:\ufeffleading and trailing\ufeff\r\nEND:VEVENT\r\nEND:VCALENDAR\r\n",
     "BEGIN:VCALENDAR\r\nBEGIN:X-BOX\r\nX-PROP;X-PARAM=1:value\r\nBEGIN:VTODO\r\nDUE;TZID=America/New_York:20240301T090000\r\nEXDATE;TZID=America/New_York:20240302T090000\r\nRECURRENCE-ID;TZID=America/New_York:20240302T090000\r\nEND:VTODO\r\nEND:X-BOX\r\nEND:VCALENDAR\r\n",
 ]
 
